@@ -81,6 +81,20 @@ void harness(void) {
   VP_CANARY();
   VP_POST(ENS1_apply_p_right(M, P, 0));
   VP_POST(ENS2_apply_p_right(M, P, 0));
+#elif defined(H_COMPRESS)
+  /* CR1, CN1, CR2 enumerated; the call-site fact "rows below r1 + r2 are zero right of n1 + r2" is established here */
+  for (int r = CR1 + CR2; r < M->nrows; ++r)
+    for (int w = 0; w < M->width; ++w) M->data[(wi_t)r * M->rowstride + w] &= ~(VP_CELLMASK(M, w) & VP_FROMCOL(CN1 + CR2, w));
+#ifdef ZROWS /* rows [ZLO, ZHI) of the swap region are zero (cost of the column swaps) */
+  for (int r = ZLO; r < ZHI; ++r)
+    for (int w = 0; w < M->width; ++w) M->data[(wi_t)r * M->rowstride + w] &= ~VP_CELLMASK(M, w);
+#endif
+  VP_PRE(REQ__mzd_compress_l(M, CR1, CN1, CR2));
+  VP_SNAPSHOT();
+  _mzd_compress_l(M, CR1, CN1, CR2);
+  VP_CANARY();
+  VP_POST(ENS1__mzd_compress_l(M, CR1, CN1, CR2));
+  VP_POST(ENS2__mzd_compress_l(M, CR1, CN1, CR2));
 #else
 #error mode
 #endif
